@@ -21,11 +21,16 @@ import (
 	"strconv"
 	"strings"
 	"sync"
+	"time"
 
 	"github.com/spf13/afero"
 	grpcscn "github.com/yandex/pandora/components/guns/grpc/scenario"
 	phttp "github.com/yandex/pandora/components/guns/http"
 	httpscn "github.com/yandex/pandora/components/guns/http_scenario"
+	grpcpost "github.com/yandex/pandora/components/providers/scenario/grpc/postprocessor"
+	grpcpre "github.com/yandex/pandora/components/providers/scenario/grpc/preprocessor"
+	httppost "github.com/yandex/pandora/components/providers/scenario/http/postprocessor"
+	httppre "github.com/yandex/pandora/components/providers/scenario/http/preprocessor"
 	httptempl "github.com/yandex/pandora/components/providers/scenario/http/templater"
 	"github.com/yandex/pandora/core"
 	"github.com/yandex/pandora/core/aggregator/netsample"
@@ -45,8 +50,12 @@ type scOut struct {
 type scStep struct {
 	Name   string `json:"name"`
 	Tag    string `json:"tag"`
-	Out    scOut  `json:"out"`
+	Pre    string `json:"pre"`  // none | ok | fail | tmplfail
+	Out    scOut  `json:"out"`  // http: what the target answers
 	Status int    `json:"status"`
+	Post   string `json:"post"` // none | pass | assertfail | extractfail
+	Want   int    `json:"want"` // grpc: code given to the step's status assert (rendered by TLC)
+	Sleep  bool   `json:"sleep"`
 }
 
 type scCaseC struct {
@@ -80,6 +89,7 @@ type scEv struct {
 	Net    int             `json:"net"`
 	Err    string          `json:"err,omitempty"`
 	Seen   []string        `json:"seen,omitempty"` // End: what the target saw during the shot (evidence only)
+	Steps  *[]string       `json:"steps,omitempty"` // End of a scenario shot: the step labels of the requests the target saw
 	Note   string          `json:"note,omitempty"`
 	N      int             `json:"n,omitempty"`
 	R      int             `json:"r,omitempty"`
@@ -137,6 +147,12 @@ func scShoot(l *scLog, inst string, g core.Gun, a core.Ammo, caseID int, c json.
 	e := scEv{Ev: "End", Inst: inst, CaseID: caseID}
 	if seen != nil {
 		e.Seen = seen()
+		// projection: scenario requests carry their step's label as the last "/" element
+		labels := []string{}
+		for _, s := range e.Seen {
+			labels = append(labels, s[strings.LastIndex(s, "/")+1:])
+		}
+		e.Steps = &labels
 	}
 	l.emit(e)
 }
@@ -231,7 +247,7 @@ var _ phttp.Ammo = scInvalidAmmo{}
 
 type scVars struct{}
 
-func (scVars) Variables() map[string]any { return map[string]any{} }
+func (scVars) Variables() map[string]any { return map[string]any{"k": "v"} }
 
 func scBehPath(o scOut, name string) string {
 	return fmt.Sprintf("/__beh/%s/%d/%s", o.Kind, o.Status, name)
@@ -346,17 +362,54 @@ func (e *scEnv) runCase(cs hwCase) {
 		sc := &httpscn.Scenario{Name: c.Name, ID: uint64(cs.ID), VariableStorage: scVars{}}
 		tm := httptempl.NewTextTemplater() // fresh template cache per case (the cache is keyed by scenario/step name)
 		for _, st := range c.Steps {
-			sc.Requests = append(sc.Requests, httpscn.Request{Method: "GET", Name: st.Name, URI: scBehPath(st.Out, st.Name), Templater: tm})
+			rq := httpscn.Request{Method: "GET", Name: st.Name, URI: scBehPath(st.Out, st.Name), Templater: tm}
+			// REAL pre/postprocessor objects of components/providers/scenario/http
+			switch st.Pre {
+			case "ok":
+				rq.Preprocessor = &httppre.Preprocessor{Mapping: map[string]string{"v": "source.k"}}
+			case "fail": // refers to a variable that does not exist: fails before anything is sent
+				rq.Preprocessor = &httppre.Preprocessor{Mapping: map[string]string{"v": "request.nosuchstep.x"}}
+			case "tmplfail": // the request template cannot be rendered
+				rq.URI += "{{ index .source.k 7 }}"
+			}
+			switch st.Post {
+			case "pass":
+				rq.Postprocessors = []httpscn.Postprocessor{httppost.AssertResponse{StatusCode: st.Out.Status}}
+			case "assertfail":
+				rq.Postprocessors = []httpscn.Postprocessor{httppost.AssertResponse{StatusCode: 299}}
+			case "extractfail": // the target's body is not JSON
+				rq.Postprocessors = []httpscn.Postprocessor{&httppost.VarJsonpathPostprocessor{Mapping: map[string]string{"x": "$.a"}}}
+			}
+			if st.Sleep {
+				rq.Sleep = time.Millisecond
+			}
+			sc.Requests = append(sc.Requests, rq)
 		}
 		scShoot(e.log, "m2", g, sc, cs.ID, cs.C, e.seenHTTP)
 	case "grpcscn":
 		gm := map[string]interface{}{"type": "grpc/scenario", "target": e.grpc.Addr()}
-		g := e.gun("grpcscn", gm, yamlShape, false) // new gun per case: its template cache is keyed by scenario/step name
-		sc := &grpcscn.Scenario{Name: c.Name}
+		g := e.gun("grpcscn", gm, yamlShape, true)
+		sc := &grpcscn.Scenario{Name: c.Name, VariableStorage: scVars{}}
 		sc.SetID(uint64(cs.ID))
 		for i, st := range c.Steps {
-			sc.Calls = append(sc.Calls, grpcscn.Call{Name: fmt.Sprintf("call%d", i+1), Tag: st.Tag, Call: "target.TargetService.Hello",
-				Payload: []byte(fmt.Sprintf(`{"name":"code:%d"}`, st.Status))})
+			// the gun's template cache is keyed by scenario name + step NAME: unique names per case (the tag is the step's Tag)
+			call := grpcscn.Call{Name: fmt.Sprintf("c%d_call%d", cs.ID, i+1), Tag: st.Tag, Call: "target.TargetService.Hello",
+				Payload: []byte(fmt.Sprintf(`{"name":"code:%d/%s"}`, st.Status, st.Tag))}
+			switch st.Pre {
+			case "ok":
+				call.Preprocessors = []grpcscn.Preprocessor{&grpcpre.PreparePreprocessor{Mapping: map[string]string{"v": "source.k"}}}
+			case "fail":
+				call.Preprocessors = []grpcscn.Preprocessor{&grpcpre.PreparePreprocessor{Mapping: map[string]string{"v": "request.nosuchstep.x"}}}
+			case "tmplfail":
+				call.Payload = []byte(`{"name":"{{ index .source.k 7 }}"}`)
+			}
+			switch st.Post {
+			case "pass", "assertfail": // assert on the status (HTTP-style code)
+				call.Postprocessors = []grpcscn.Postprocessor{grpcpost.AssertResponse{StatusCode: st.Want}}
+			case "extractfail": // assert on a payload that is not there
+				call.Postprocessors = []grpcscn.Postprocessor{grpcpost.AssertResponse{Payload: []string{"never-there"}}}
+			}
+			sc.Calls = append(sc.Calls, call)
 		}
 		e.grpc.Calls()
 		scShoot(e.log, "m2", g, sc, cs.ID, cs.C, e.grpc.Calls)
